@@ -8,14 +8,20 @@ Go ↔ model
     `objectSetsToBeArchived`                 ↦ `scan` (the `for j := len-1; j >= 0; j--` loop, run on the
                                                reversed slice so that the head is `allObjectSets[j]`)
     `archiveAllLaterRevisions`  (case 1)     ↦ `case1`
-    `intermediateRevisionCanBeArchived` (2/3)↦ `pairStep`
+    `intermediateRevisionCanBeArchived` (2/3)↦ `pairStep` (+ `iterErr`: its error return)
+    `revisionObjects`                        ↦ `revisionObjects` (inline objects + the objects of every
+                                               referenced ObjectSlice, loaded with `client.Get`; a slice
+                                               that cannot be loaded is an error)
     `ensurePaused`                           ↦ `ensurePaused`
     `markObjectSetsForArchival`              ↦ `markLoop`
     `garbageCollectRevisions`                ↦ `gc` / `gcLoop`
     `intersection`                           ↦ `keysIntersect`
 * `adapter_objectset.go`
     `getActivelyReconciledObjects`           ↦ `activelyReconciled` (archived ⇒ `[]`, nil ⇒ "not reported")
-    `getObjects`                             ↦ field `objects` (namespace defaulting already applied)
+    `getObjects` / `objectIdentifiers`       ↦ field `objects`: the objects INLINE in `spec.phases[*].objects`
+                                               (namespace defaulting already applied); the objects that
+                                               live in the ObjectSlices the phases reference
+                                               (`spec.phases[*].slices`) are `sliced`
     `objectSetsByRevisionAscending` + `sort.Sort` ↦ `sortAsc` (see there)
 * `objectset_reconciler.go`, `objectdeployment_controller.go:listObjectSetsByRevision`
     listing sort, revision-0 delay, current/previous split, pause propagation ↦ `osr`, `propagate`
@@ -27,6 +33,9 @@ Go ↔ model
   it: a revision deleted in an earlier round whose teardown has not finished is listed, sorted,
   counted in `len(previousObjectSets)` and sent `Delete` again like any other.  Multi-round
   histories (prune, revision still terminating, prune again) are `Pko.Model.ArchiveHist`.
+
+`archiveReconciler` as wired by `newGenericObjectDeploymentController` (scheme + ObjectSlice factory
+of the controller's scope); with a nil factory (unit tests of the package) only inline objects count.
 
 The output of a pass is the ordered list of client writes it issues (`Write`) plus whether the pass
 returned an error.  Nothing else of the pass is observable to the API.  The functions are plain
@@ -59,7 +68,7 @@ structure Rev where
   pbp : Bool
   /-- `status.controllerOf`; `none` = nil slice ("not reported yet"). -/
   controllerOf : Option (List Key)
-  /-- keys of the objects listed in `spec.phases[*].objects`. -/
+  /-- keys of the objects listed INLINE in `spec.phases[*].objects`. -/
   objects : List Key
   /-- annotation `package-operator.run/hash` equals the deployment's `status.templateHash`. -/
   hashMatch : Bool
@@ -69,7 +78,19 @@ structure Rev where
   terminating revision in `len(previousObjectSets)`, sends `Delete` to it again and decrements
   `numToDelete` for it like for any other revision. -/
   terminating : Bool := false
+  /-- keys of the objects of the revision that are NOT inline: they live in the (Cluster)ObjectSlice
+  objects named by `spec.phases[*].slices` (packages > 1 MiB, or the EachObject chunking strategy),
+  in phase order.  The ObjectSet stored in the API keeps them there: only the ObjectSet controller
+  inlines them, in memory, for its own pass (`objectSliceLoadReconciler`).  The revision *contains*
+  `objects ++ sliced` (`Rev.allObjects`). -/
+  sliced : List Key := []
+  /-- some ObjectSlice named by `spec.phases[*].slices` does not exist (a `Get` returns NotFound):
+  what else the revision contains cannot be determined. -/
+  sliceMissing : Bool := false
   deriving DecidableEq, Repr, Inhabited
+
+/-- Everything the revision contains: the inline objects and the objects of its ObjectSlices. -/
+def Rev.allObjects (r : Rev) : List Key := r.objects ++ r.sliced
 
 def Rev.archived (r : Rev) : Bool := r.lc == .archived      -- IsArchived
 def Rev.specPaused (r : Rev) : Bool := r.lc == .paused      -- IsSpecPaused
@@ -126,13 +147,28 @@ def keysIntersect (a b : List Key) : List Key := b.filter (fun k => a.contains k
 def activelyReconciled (p : Rev) : Option (List Key) :=
   if p.archived then some [] else p.controllerOf
 
-/-- `intermediateRevisionCanBeArchived(previousRevision, currentLatestRevision)` (l.153-190). -/
+/-- `revisionObjects(ctx, objectSet)`: the identifiers of ALL objects of the revision — `getObjects()`
+(inline) followed by the objects of every ObjectSlice named in `spec.phases[*].slices`, each loaded
+with `client.Get` in the ObjectSet's namespace and namespace-defaulted like the inline ones.  `none`
+= a `Get` failed (the slice does not exist): the function returns that error. -/
+def revisionObjects (l : Rev) : Option (List Key) :=
+  if l.sliceMissing then none else some l.allObjects
+
+/-- `intermediateRevisionCanBeArchived(previousRevision, currentLatestRevision)` once
+`revisionObjects(currentLatestRevision)` has succeeded (for its error return see `iterErr`). -/
 def pairStep (p l : Rev) : List Write × Bool :=
   match activelyReconciled p with
   | none => ([], false)                       -- controllerOf not reported yet
   | some act =>
-    if (keysIntersect l.objects act).isEmpty && !p.available then ensurePaused p
+    if (keysIntersect l.allObjects act).isEmpty && !p.available then ensurePaused p
     else ([], false)
+
+/-- The loop iteration for `p = allObjectSets[j-1]`, `l = allObjectSets[j]` ends the whole pass with
+an error: it reaches `intermediateRevisionCanBeArchived` (previous revision not archived, revision
+numbers in order) and the first thing that does — loading the objects of the latest revision —
+fails.  Nothing is written in that iteration. -/
+def iterErr (p l : Rev) : Bool :=
+  !p.archived && !decide (l.rev ≤ p.rev) && (revisionObjects l).isNone
 
 /-- Body of one loop iteration of `objectSetsToBeArchived` below the case-1 test, for `j > 0`
 (l.94-121): `l = allObjectSets[j]`, `p = allObjectSets[j-1]`. -/
@@ -145,7 +181,8 @@ def pairIter (p l : Rev) : List Write × List Rev :=
 
 /-- `objectSetsToBeArchived` (l.72-124) on the **descending** list (`allObjectSets` reversed):
 the head is `allObjectSets[j]`, the tail reversed is `allObjectSets[:j]`.  Returns the pause
-writes issued on the way and `objectSetsToArchive` in the order the Go code builds it. -/
+writes issued on the way and `objectSetsToArchive` in the order the Go code builds it (up to the
+iteration that fails, if one does: `scanErr`). -/
 def scan : List Rev → List Write × List Rev
   | [] => ([], [])
   | l :: rest =>
@@ -154,9 +191,23 @@ def scan : List Rev → List Write × List Rev
       match rest with
       | [] => ([], [])
       | p :: _ =>
-        let h := pairIter p l
-        let r := scan rest
-        (h.1 ++ r.1, h.2 ++ r.2)
+        if iterErr p l then ([], [])                   -- error return: no further iteration runs
+        else
+          let h := pairIter p l
+          let r := scan rest
+          (h.1 ++ r.1, h.2 ++ r.2)
+
+/-- `objectSetsToBeArchived` returns an error (same traversal as `scan`): some iteration reached
+before a case-1 early return fails to load the objects of its latest revision.  The caller then
+drops the result and returns the error; the pause writes `scan` lists were issued before. -/
+def scanErr : List Rev → Bool
+  | [] => false
+  | l :: rest =>
+    if l.available then false
+    else
+      match rest with
+      | [] => false
+      | p :: _ => iterErr p l || scanErr rest
 
 /-- The loop of `garbageCollectRevisions` (l.236-245).  Every visited revision is sent a `Delete` and
 counted, whether or not it is already terminating (`p.terminating` is not consulted). -/
@@ -205,7 +256,8 @@ def reconcile (prev : List Rev) (cur : Option Rev) (limit : Option Int) (fin : B
     let all := sortAsc (prev ++ [c])
     let prev' := all.take prev.length
     let s := scan all.reverse
-    if s.2.isEmpty then (s.1, false)
+    if scanErr all.reverse then (s.1, true)          -- "errored when trying to compute objects for archival"
+    else if s.2.isEmpty then (s.1, false)
     else
       let m := markLoop prev' limit fin (sortAsc s.2) []
       (s.1 ++ m.1, m.2)
